@@ -35,7 +35,7 @@ def check(ctx):
         # injective renaming of A's slots (keeps away from A's own numbers to stay injective)
         targets = rng.sample([t for t in small + big if t not in slots[:na]], na)
         rho = dict(zip(slots[:na], targets))
-        var_r = [gen.Var(v.kind, rho[v.slot], v.access, keys=v.keys, value=v.value, fields=v.fields, style=v.style) for v in va]
+        var_r = [gen.Var(v.kind, rho[v.slot], v.access, keys=v.keys, value=v.value, fields=v.fields, style=v.style, srcs=v.srcs) for v in va]
         car = gen.compile_layout(var_r, rng, dispatcher=disp)
         cases.append((ca, cb, cab, car, rho))
     stage = vlib.stage_replay(ctx)
@@ -53,7 +53,8 @@ def check(ctx):
             terms.append(L.hexify("mk_c11case (%s) (%s) (%s) [%s] (%s)" % (a, b, ab, rho, ar)))
         bad = vlib.run_cases(ctx, "locality", L.HEADER, terms, per_shard=max(1, len(terms) // 32 + 1), fn="check_c11")
         names = {76: "the layout of two independent fragments behind a dispatcher is not the union of their layouts",
-                 77: "renumbering the slot constants changed more than the slot indices", 78: "panic"}
+                 77: "renumbering the slot constants changed more than the slot indices", 78: "panic",
+                 79: "a fragment fails on its own but succeeds behind a dispatcher next to an unrelated fragment"}
         for idx, code in bad:
             ca, cb, cab, car, rho = cases[idx]
             ctx.violate("C11:%d:%s" % (code, cab.hex()[:48]), "%s" % names.get(code, code),
